@@ -165,6 +165,7 @@ def tasks(tier):
                 t_task("sync", rtc, allow, "bool", s0, 2 if quick else 3)
     for s0 in range(4):
         t_task("sync", True, False, "int", s0, 2 if quick else 3)
+        t_task("async_all", True, False, "int", s0, 1 if quick else 2)
     for eng in ["async_all", "async_one"] + ([] if quick else ["async_val"]):
         for allow in (False, True):
             for s0 in range(4):
